@@ -733,6 +733,6 @@ func TestC05(t *testing.T) {
 			"tier B: goroutine interleaving inside the nodes is the Go scheduler's; the oracle only asserts what must hold under every interleaving (fail, or equal the reference)",
 			"failures of the coordinating node's own store are not injected",
 		},
-		Rule: "a run = cluster of 2-4 real data nodes, replication 1-n, 1-3 shard groups, 0-4 owner copies/removals, 1-40 points placed on every owner, a drawn coordinator, one fault kind per other node (down, refuse, slow+fragmented, stall, reset at request, reset/close mid-stream, error reply) and 1-5 statements (raw and aggregate selects, grouped, time-bounded, SHOW metadata lookups, EXPLAIN); non-trivial = at least one node faulty",
+		Rule: "a run = cluster of 2-4 real data nodes, replication 1-n, 1-3 shard groups, 0-4 owner copies/removals, 1-40 points placed on every owner, a drawn coordinator, one fault kind per other node (down, refuse, slow+fragmented, late = answers after the asker's timeout, stall, reset at request, reset/close mid-stream, error reply) and 1-5 statements (raw and aggregate selects, grouped, time-bounded, wildcards, SHOW metadata lookups, EXPLAIN); non-trivial = at least one node faulty",
 	})
 }
